@@ -9,16 +9,19 @@ import callgraph
 from rules import builderfacts
 
 LEVEL_TEXT = (
-    "Only the configuration-plumbing clauses have a static form; equality of behaviour across runtimes is NOT decided. "
-    "R1 every option reaches its consumer, in both runtime builders (siblings must agree): listen address/port -> "
-    "SocketAddr::new -> run(addr); connection limit, item size limit, backlog -> the matching (all-u32) constructor "
-    "arguments of MemcacheServerConfig; the 60 s timeout -> rx timeout -> Duration::from_secs in the read loop; threads -> "
-    "worker_threads resp. the listener-thread loop bound; memory limit and eviction policy -> the store config; R2 one "
-    "store: from_config (-> MemoryStore::new) runs once, outside any loop or thread closure, and every server gets a clone "
-    "of that value; R3 parser tables: eviction policy names, runtime-type dispatch to the matching builder; R4 one clock, "
-    "driven in both modes: main builds one SystemTimer, hands a clone to the store and unconditionally block_on's its run() "
-    "on the runtime returned for either mode; run ticks an interval of 1 s and each tick advances the same atomic that "
-    "timestamp() loads. Not decided: SO_REUSEPORT behaviour, real-time accuracy, response equality across runtimes."
+    'Only the configuration-plumbing clauses have a static form; equality of behaviour across runtimes is NOT '
+    'decided. R1 every option reaches its consumer, in both runtime builders (siblings must agree): listen '
+    'address/port -> SocketAddr::new -> run(addr); connection limit, item size limit, backlog, timeout -> the '
+    'matching (all-u32) constructor arguments of MemcacheServerConfig; from there, composed end to end through '
+    'MemcacheTcpServer::new -> run -> Client::new -> Client::handle: the idle timeout around every read is '
+    "Duration::from_secs(server config timeout) and listen() gets the server config's backlog; threads -> "
+    'worker_threads resp. the listener-thread loop bound; memory limit and eviction policy -> the store config; R2 '
+    'one store: from_config (-> MemoryStore::new) runs once, outside any loop or thread closure, and every server '
+    'gets a clone of that value; R3 parser tables: eviction policy names, runtime-type dispatch to the matching '
+    'builder; R4 one clock, driven in both modes: main builds one SystemTimer, hands a clone to the store and '
+    "unconditionally block_on's its run() on the runtime returned for either mode; run ticks an interval of 1 s that "
+    "keeps tokio's catch-up behaviour (no tick is dropped) and each tick advances the same atomic that timestamp() "
+    'loads. Not decided: SO_REUSEPORT behaviour, real-time accuracy, response equality across runtimes.'
 )
 ASSUMPTIONS = ["tokio interval_at(start, d).tick() fires once per elapsed period d when the missed-tick behaviour is the default Burst (late ticks are caught up), and drops or shifts ticks under Skip/Delay", "clap assigns each parsed option to the struct field of the same name"]
 
